@@ -3,7 +3,7 @@
 
 def _c19_case(c):
     p = c.split(" ")
-    if p[0] in ("M", "T"):
+    if p[0] in ("M", "T", "U"):
         return {"op": p[0], "hex": p[1]}
     if p[0] == "K":
         return {"op": "K", "spec": unhex(p[-1]).encode("latin-1").decode("utf-8")}
@@ -71,7 +71,7 @@ def _vm_events(t):
     for e in evs:
         f = e.split(":")
         if f[0] == "X":
-            out.append("(VX %s %s (%s)%%Z)" % (_vm_str(f[1]), _vm_str(f[2]), f[3]))
+            out.append("(VX %s %s (%s)%%Z %s)" % (_vm_str(f[1]), _vm_str(f[2]), f[3], _vm_ann(f[4])))
         elif f[0] == "PB":
             out.append("(VPB %s %s (%s)%%Z %s)" % (_vm_str(f[1]), _vm_str(f[2]), f[3], _vm_ann(f[4])))
         else:
@@ -94,10 +94,10 @@ Fixpoint vm_ins (p : kv) (l : list kv) : list kv :=
   end.
 Definition vm_sort (l : list kv) : list kv := fold_right vm_ins [] l.
 Definition vm_desc (d : desc) : desc := mkDesc (d_mt d) (d_dg d) (d_sz d) (vm_sort (d_ann d)) (d_at d) (d_extra d).
-Inductive vev := VX (mt dg : str) (sz : Z) | VPB (mt dg : str) (sz : Z) (ann : list kv) | VPM (mt at_ : str) (ann : list kv).
+Inductive vev := VX (mt dg : str) (sz : Z) (ann : list kv) | VPB (mt dg : str) (sz : Z) (ann : list kv) | VPM (mt at_ : str) (ann : list kv).
 Definition vm_ev (e : event) : vev :=
   match e with
-  | EvExists d => VX (d_mt d) (d_dg d) (d_sz d)
+  | EvExists d => VX (d_mt d) (d_dg d) (d_sz d) (vm_sort (d_ann d))
   | EvPush RBlob d _ => VPB (d_mt d) (d_dg d) (d_sz d) (vm_sort (d_ann d))
   | EvPush RManifest d _ => VPM (d_mt d) (d_at d) (vm_sort (d_ann d))
   end.
@@ -108,7 +108,8 @@ Inductive vres :=
 Definition vm_view (p : state * result) : vres * list vev :=
   (match snd p with
    | Err e => VErr e
-   | Ok d m => VOk (d_mt d) (d_at d) (vm_sort (d_ann d)) (m_kind m) (option_map vm_desc (m_config m))
+   | Ok d m0 => let m := san_manifest m0 in
+               VOk (d_mt d) (d_at d) (vm_sort (d_ann d)) (m_kind m) (option_map vm_desc (m_config m))
                    (option_map (map vm_desc) (m_layers m)) (option_map vm_desc (m_subject m)) (m_at m)
                    (vm_sort (m_ann m))
    end, map vm_ev (s_events (fst p))).
@@ -123,6 +124,8 @@ def _vm_goal(case, out):
     o = out.split(" ")
     if p[0] == "M":
         return "valid_media_type %s = %s" % (_vm_str(p[1]), "true" if o[0] == "1" else "false")
+    if p[0] == "U":
+        return "utf8_san %s = %s" % (_vm_str(p[1]), _vm_str(o[0]))
     if p[0] == "T":
         return "rfc3339_ok %s = %s" % (_vm_str(p[1]), "true" if o[0] == "1" else "false")
     if p[0] != "K":
@@ -147,7 +150,7 @@ def _vm_goal(case, out):
 
 def _c19_vm_sample(d, tier, coq, build):
     import os, subprocess, collections
-    quota = {"K": 250, "M": 120, "T": 120} if tier == "thorough" else {"K": 30, "M": 15, "T": 15}
+    quota = {"K": 250, "M": 120, "T": 120, "U": 60} if tier == "thorough" else {"K": 30, "M": 15, "T": 15, "U": 10}
     outs = {}
     with open(os.path.join(d, "model.txt")) as f:
         for l in f:
@@ -194,7 +197,7 @@ def _c19_vm_sample(d, tier, coq, build):
 
 CONFIG = {
     "properties_file": "Properties/C19.v",
-    "proof_files": ["Base/Prelude.v", "Base/Regex.v", "Base/StrCheck.v", "Proofs/Pack.v", "Proofs/PackTime.v"],
+    "proof_files": ["Base/Prelude.v", "Base/Regex.v", "Base/StrCheck.v", "Proofs/Pack.v", "Proofs/PackTime.v", "Proofs/PackJson.v"],
     "model_files": ["Generated/GC19.v", "Model/Pack.v"],
     "extract": "XC19.v",
     "ml_main": "c19_main.ml",
